@@ -181,6 +181,68 @@ class VariantAdd(Contract):
             (" with that id already present" if inputs["dup"] else "")
 
 
+
+class VariantAddAny(VariantAdd):
+    """VariantBase.add on a container holding ANY number of children (the table of children is a dict of unbounded size, pyvc/anycoll.py):
+    accepted iff the new variant is valid (parent link set) and its id is not taken by ANY child; then it is registered under its id and
+    nothing else in the table is written; every refusal leaves the table unwritten."""
+
+    def __init__(self, src, T, container):
+        self.src, self.T, self.container, self.k = src, T, container, None
+        self.name = "productmd.composeinfo.%s.add[any number of children]" % container
+        self.key = "meth:composeinfo.%s.add:any" % container
+
+    def setup(self, E):
+        from pyvc.anycoll import AnyDict
+        ci = E.instantiate(("composeinfo", "ComposeInfo"))
+        if self.container == "Variants":
+            cont, pf = ci.fields["variants"], None
+        else:
+            cont, pf = _variant(E, ci, "parent", symbolic=("id", "uid"))
+            E.assume(sym.in_lang(pf["uid"], r"[A-Za-z0-9]+(-[A-Za-z0-9]+)*"))
+        siblings = []
+
+        def sibling(E_, key, tag):
+            m0 = len(E_.path.effects)
+            ev, ef = _variant(E_, ci, "sibling%d" % len(siblings), symbolic=("id", "uid"))
+            if pf is not None:
+                ev.fields["parent"] = cont
+            del E_.path.effects[m0:]
+            siblings.append(ev)
+            return ev
+        table = AnyDict("variants", sibling)
+        cont.fields["variants"] = table
+        new, nf = _variant(E, ci, "new")
+        return {"ci": ci, "cont": cont, "pf": pf, "table": table, "new": new, "nf": nf, "mark": len(E.path.effects)}
+
+    def post(self, E, st, out):
+        nf, pf, d = st["nf"], st["pf"], st["table"]
+        writes = [w for w in E.path.effects[st["mark"]:] if w[0] == "any_write" and w[1] is d]
+        valid = valid_variant(self.T, nf, pf)
+        looked = [ent for ent in d.known]
+        # the id was looked up in the table exactly once; `taken` = it was present before the call wrote anything
+        mine = [ent for ent in d.written]
+        taken_ents = [ent for ent in looked if ent[1] is True and ent not in mine]
+        if out.kind == "raise":
+            return {"refuses_with_ValueError_or_TypeError": out.exc_cls in (ValueError, TypeError),
+                    "refuses_only_invalid_or_duplicate": Or(Not(valid), bool(taken_ents)),
+                    "refusal_leaves_container_unchanged": not writes}
+        cl = {"accepts_only_valid_variant": valid, "accepts_only_unused_id": not taken_ents,
+              "variant_registered_under_its_id": len(mine) == 1 and mine[0][2] is st["new"] and _veq(mine[0][0], nf["id"]),
+              "other_children_unchanged": len(writes) == 1}
+        if pf is not None:
+            cl["parent_link_set"] = st["new"].fields.get("parent") is st["cont"]
+        else:
+            cl["top_level_has_no_parent"] = st["new"].fields.get("parent") is None
+        return cl
+
+    def sample_inputs(self, rng):
+        return VariantAdd.sample_inputs(VariantAdd(self.src, self.T, self.container, 1), rng)
+
+    def native_eval(self, inputs):
+        nat, cl = VariantAdd.native_eval(VariantAdd(self.src, self.T, self.container, 1), inputs)
+        return nat, cl
+
 class GetItem(Contract):
     """ComposeInfo[uid] / Variant[id] on a well-formed forest top -> child -> grandchild with symbolic ids: every variant is found from the
     top by its UID and from its parent by its id."""
@@ -239,7 +301,8 @@ class GetItem(Contract):
 
 
 def contracts(src, T):
-    return [VariantAdd(src, T, "Variants", 0), VariantAdd(src, T, "Variants", 1), VariantAdd(src, T, "Variant", 0), VariantAdd(src, T, "Variant", 1),
+    return [VariantAddAny(src, T, "Variants"), VariantAddAny(src, T, "Variant"),
+            VariantAdd(src, T, "Variants", 0), VariantAdd(src, T, "Variants", 1), VariantAdd(src, T, "Variant", 0), VariantAdd(src, T, "Variant", 1),
             GetItem(src, T)]
 
 
@@ -827,7 +890,8 @@ class GetVariants(Contract):
 
 
 def contracts(src, T):          # noqa: F811
-    return [VariantAdd(src, T, "Variants", 0), VariantAdd(src, T, "Variants", 1), VariantAdd(src, T, "Variant", 0), VariantAdd(src, T, "Variant", 1),
+    return [VariantAddAny(src, T, "Variants"), VariantAddAny(src, T, "Variant"),
+            VariantAdd(src, T, "Variants", 0), VariantAdd(src, T, "Variants", 1), VariantAdd(src, T, "Variant", 0), VariantAdd(src, T, "Variant", 1),
             GetItem(src, T), ForestRoundTrip(src, T, False), ForestRoundTrip(src, T, True)] + \
         [VariantReaderValid(src, T, "record", k) for k in VARIANT_RECORD_FIELDS] + \
         [VariantReaderValid(src, T, "release", k) for k in LP_RELEASE_FIELDS] + \
